@@ -538,6 +538,123 @@ impl Mul<i64> for &BoxedUnsatInt {
     }
 }
 
+/// Verification hooks: the private boxed safegcd building blocks on plain slices of 62-bit limbs
+/// (`BoxedUnsatInt` is `Box<[u64]>`, `Matrix` is `[[i64; 2]; 2]`).
+#[cfg(crypto_bigint_verif)]
+#[allow(dead_code, missing_docs, unreachable_pub)]
+pub(crate) mod verif {
+    use super::{BoxedSafeGcdInverter, BoxedUnsatInt, Matrix};
+    use crate::BoxedUint;
+    use alloc::vec::Vec;
+
+    fn wrap(x: &[u64]) -> BoxedUnsatInt {
+        BoxedUnsatInt(x.into())
+    }
+
+    pub fn unsat_nlimbs_for_sat_nlimbs(saturated_nlimbs: usize) -> usize {
+        super::unsat_nlimbs_for_sat_nlimbs(saturated_nlimbs)
+    }
+
+    /// `(f', g')`
+    pub fn fg(f: &[u64], g: &[u64], t: Matrix) -> (Vec<u64>, Vec<u64>) {
+        let (mut f, mut g) = (wrap(f), wrap(g));
+        super::fg(&mut f, &mut g, t);
+        (f.0.into_vec(), g.0.into_vec())
+    }
+
+    /// `(d', e')`
+    pub fn de(
+        modulus: &[u64],
+        inverse: i64,
+        t: Matrix,
+        d: &[u64],
+        e: &[u64],
+    ) -> (Vec<u64>, Vec<u64>) {
+        let (mut d, mut e) = (wrap(d), wrap(e));
+        super::de(&wrap(modulus), inverse, t, &mut d, &mut e);
+        (d.0.into_vec(), e.0.into_vec())
+    }
+
+    /// `(d', g', f)` where `f` is the returned value
+    pub fn divsteps(
+        d: &[u64],
+        e: &[u64],
+        f_0: &[u64],
+        g: &[u64],
+        inverse: i64,
+        vartime: bool,
+    ) -> (Vec<u64>, Vec<u64>, Vec<u64>) {
+        let (mut d, mut g) = (wrap(d), wrap(g));
+        let f = if vartime {
+            super::divsteps_vartime(&mut d, &wrap(e), &wrap(f_0), &mut g, inverse)
+        } else {
+            super::divsteps(&mut d, &wrap(e), &wrap(f_0), &mut g, inverse)
+        };
+        (d.0.into_vec(), g.0.into_vec(), f.0.into_vec())
+    }
+
+    pub fn unsat_from_uint_widened(input: &BoxedUint, nlimbs: usize) -> Vec<u64> {
+        BoxedUnsatInt::from_uint_widened(input, nlimbs).0.into_vec()
+    }
+
+    pub fn unsat_to_uint(x: &[u64], bits_precision: u32) -> BoxedUint {
+        wrap(x).to_uint(bits_precision)
+    }
+
+    pub fn unsat_mul(a: &[u64], b: i64) -> Vec<u64> {
+        (&wrap(a) * b).0.into_vec()
+    }
+
+    pub fn unsat_add(a: &[u64], b: &[u64]) -> Vec<u64> {
+        let mut a = wrap(a);
+        a += &wrap(b);
+        a.0.into_vec()
+    }
+
+    pub fn unsat_neg(a: &[u64]) -> Vec<u64> {
+        wrap(a).neg().0.into_vec()
+    }
+
+    pub fn unsat_shr(a: &[u64]) -> Vec<u64> {
+        let mut a = wrap(a);
+        a.shr_assign();
+        a.0.into_vec()
+    }
+
+    pub fn unsat_is_negative(a: &[u64]) -> bool {
+        wrap(a).is_negative().into()
+    }
+
+    pub fn unsat_leading_zeros(a: &[u64]) -> u32 {
+        wrap(a).leading_zeros()
+    }
+
+    pub fn unsat_bits(a: &[u64]) -> u32 {
+        wrap(a).bits()
+    }
+
+    /// `(modulus, adjuster, inverse)` of an inverter
+    pub fn inverter_fields(inverter: &BoxedSafeGcdInverter) -> (Vec<u64>, Vec<u64>, i64) {
+        (
+            inverter.modulus.0.to_vec(),
+            inverter.adjuster.0.to_vec(),
+            inverter.inverse,
+        )
+    }
+
+    /// `BoxedSafeGcdInverter::norm(value, negate)`
+    pub fn inverter_norm(
+        inverter: &BoxedSafeGcdInverter,
+        value: &[u64],
+        negate: bool,
+    ) -> Vec<u64> {
+        inverter
+            .norm(wrap(value), subtle::Choice::from(negate as u8))
+            .0
+            .into_vec()
+    }
+}
+
 #[cfg(test)]
 mod tests {
     use super::BoxedUnsatInt;
